@@ -26,11 +26,29 @@ structure Acc where
   kfs : List (String × Nat) := []
   distinctNontrivial : Nat := 0
   seen : Std.HashSet UInt64 := {}
+  dist : Std.HashMap String Nat := {}
 
 def bump (l : List (String × Nat)) (k : String) : List (String × Nat) × Nat :=
   match l.find? (·.1 == k) with
   | some (_, c) => (l.map (fun p => if p.1 == k then (p.1, p.2 + 1) else p), c + 1)
   | none => ((k, 1) :: l, 1)
+
+/-- coarse class of a case, for the input distribution reported in the evidence -/
+def category (req ans : String) : String :=
+  match words req with
+  | "x" :: _ | "xr" :: _ | "xs" :: _ =>
+    let line := (req.splitOn " | ").getLast?.getD ""
+    let ws := words line
+    let mn := match ws with | p :: q :: _ => if p == "rep" || p == "repz" || p == "repnz" then p ++ "+" ++ q else p | p :: _ => p | [] => "?"
+    s!"L2 {(words req).headD "x"} {mn} -> {(words ans).headD "?"}"
+  | "asm" :: _ | "asm2" :: _ => s!"L3 {(words req).headD "asm"} -> {" ".intercalate ((words ans).take 2)}"
+  | "cli" :: flag :: _ =>
+    let out := (pctDecode (fieldOf ans "out")).getD ""
+    let kind := if out.startsWith "Syntax Error" then "syntax diagnostic" else if out.startsWith "Label " then "undefined label"
+      else if out.startsWith "Error : necessary" then "no start" else if (out.splitOn ">>> ").length > 1 then "ran with prompts" else "ran"
+    s!"L4 cli {flag} exit={fieldOf ans "exit"} {kind}"
+  | k :: f :: _ => s!"L1 {k} {f}"
+  | _ => "?"
 
 def handle (req ans : String) : Verdict :=
   let r := words req
@@ -51,7 +69,8 @@ partial def loop (h : IO.FS.Stream) (out : IO.FS.Stream) (acc : Acc) : IO Acc :=
   match line.splitOn " => " with
   | [req, ans] =>
     let v := handle req ans
-    let mut acc := { acc with n := acc.n + 1 }
+    let cat := category req ans
+    let mut acc := { acc with n := acc.n + 1, dist := acc.dist.insert cat ((acc.dist.getD cat 0) + 1) }
     if v.model == "BADREQ" then
       out.putStrLn s!"BADREQ {line}"
       acc := { acc with badreq := acc.badreq + 1 }
@@ -88,4 +107,6 @@ def main : IO Unit := do
   let stdout ← IO.getStdout
   let acc ← Driver.loop stdin stdout {}
   let kfs := ",".intercalate (acc.kfs.map (fun p => s!"{p.1}:{p.2}"))
+  let dist := ";".intercalate (acc.dist.toList.map fun (k, v) => s!"{k.replace " " "_"}={v}")
+  stdout.putStrLn s!"DIST {dist}"
   stdout.putStrLn s!"SUMMARY n={acc.n} diff_model={acc.diffModel} diff_spec={acc.diffSpec} kf_hits={acc.kfHits} nontrivial={acc.nontrivial} distinct_nontrivial={acc.distinctNontrivial} bad={acc.badreq} kf={kfs}"
